@@ -156,3 +156,107 @@ func TestC03Trees(t *testing.T) {
 		}
 	})
 }
+
+// inflate makes a drawn tree large: a drawn structure gets k cheap filler children, or a drawn string leaf grows
+// to l bytes, so that the encoding crosses the encoder's buffer growth steps while structures are open.
+func inflate(rt *rapid.T, n *ttlvref.Node) (labels []string) {
+	var structs, strs []*ttlvref.Node
+	var walk func(x *ttlvref.Node)
+	walk = func(x *ttlvref.Node) {
+		switch x.Type {
+		case ttlvref.Structure:
+			structs = append(structs, x)
+			for _, k := range x.Kids {
+				walk(k)
+			}
+		case ttlvref.ByteString, ttlvref.TextString:
+			strs = append(strs, x)
+		}
+	}
+	walk(n)
+	mode := rapid.IntRange(0, 2).Draw(rt, "inflate")
+	if (mode == 0 || mode == 2) && len(structs) > 0 {
+		s := structs[rapid.IntRange(0, len(structs)-1).Draw(rt, "struct")]
+		k := rapid.SampledFrom([]int{40, 130, 260, 520, 1030, 2100, 4200, 9000}).Draw(rt, "fill") + rapid.IntRange(0, 9).Draw(rt, "fill+")
+		at := rapid.IntRange(0, len(s.Kids)).Draw(rt, "at")
+		base := rapid.Int32().Draw(rt, "base")
+		fill := make([]*ttlvref.Node, 0, k)
+		for i := 0; i < k; i++ {
+			switch i % 3 {
+			case 0:
+				fill = append(fill, &ttlvref.Node{Tag: 0x420000 + 1 + i%200, Type: ttlvref.Integer, I: int64(base) ^ int64(i)})
+			case 1:
+				fill = append(fill, &ttlvref.Node{Tag: 0x540000 + i%1000, Type: ttlvref.TextString, B: []byte(fmt.Sprintf("%d", i))})
+			default:
+				fill = append(fill, &ttlvref.Node{Tag: 0x420000 + 1 + i%200, Type: ttlvref.Structure, Kids: []*ttlvref.Node{{Tag: 0x42000A, Type: ttlvref.Boolean, I: int64(i & 1)}}})
+			}
+		}
+		s.Kids = append(append(append([]*ttlvref.Node{}, s.Kids[:at]...), fill...), s.Kids[at:]...)
+		labels = append(labels, "many-children")
+	}
+	if (mode == 1 || mode == 2 || len(labels) == 0) && len(strs) > 0 {
+		s := strs[rapid.IntRange(0, len(strs)-1).Draw(rt, "string")]
+		l := rapid.SampledFrom([]int{500, 1000, 2040, 4090, 8185, 16380, 33000, 70000, 150000}).Draw(rt, "strlen") + rapid.IntRange(0, 16).Draw(rt, "strlen+")
+		b := make([]byte, l)
+		c := rapid.ByteRange('a', 'z').Draw(rt, "fillchar")
+		for i := range b {
+			b[i] = c + byte(i%3)
+		}
+		s.B = b
+		labels = append(labels, "long-string")
+	}
+	return labels
+}
+
+func TestC03Large(t *testing.T) {
+	const name = "TestC03Large"
+	rec := evid.New("C03", name, "rapid generic TTLV trees as in TestC03Trees, then inflated: a drawn structure receives 40..9000 filler children (integers, text strings, one-child structures) at a drawn position "+
+		"and/or a drawn string leaf grows to 500..150000 bytes, so that encodings of 1 KiB..250 KiB cross every buffer growth step of the encoder while structures are open; same three relations; "+
+		"non-trivial = the reference encoding is longer than 4096 bytes; distinct by reference encoding").Attach(t)
+	if rp := evid.LoadReplay(name); rp != nil {
+		var c treeCase
+		if err := json.Unmarshal(rp.Case, &c); err != nil {
+			t.Fatal(err)
+		}
+		n, err := c.tree()
+		if err != nil {
+			t.Fatal(err)
+		}
+		if sig, err := c03Tree(n); err != nil {
+			t.Fatalf("VERIF-FAIL property=C03 test=%s sig=%s replay=%s: %v", name, sig, "", err)
+		}
+		return
+	}
+	rapid.Check(t, func(rt *rapid.T) {
+		o := gen.DefaultTreeOpts()
+		o.MaxDepth, o.MaxFanout = 4, 4
+		n := gen.Tree(rt, o)
+		if n.Type != ttlvref.Structure {
+			n = &ttlvref.Node{Tag: 0x420078, Type: ttlvref.Structure, Kids: []*ttlvref.Node{n, {Tag: 0x420008, Type: ttlvref.ByteString, B: []byte{1, 2, 3}}}}
+		}
+		labels := inflate(rt, n)
+		enc := ttlvref.Write(n)
+		nt := len(enc) > 4096
+		labels = append(labels, fmt.Sprintf("size-class=2^%d", bitsLen(len(enc))))
+		rec.Case(nt, enc, labels...)
+		if nt && len(enc) < 6000 && rec.WantSample() {
+			rec.Sample(mkTreeCase(n))
+		}
+		if sig, err := c03Tree(n); err != nil {
+			// keep the message short: the encodings are large
+			if len(err.Error()) > 600 {
+				err = fmt.Errorf("%s ...", err.Error()[:600])
+			}
+			rec.Fail(rt, name, sig, err, mkTreeCase(n))
+		}
+	})
+}
+
+func bitsLen(n int) int {
+	b := 0
+	for n > 0 {
+		n >>= 1
+		b++
+	}
+	return b
+}
